@@ -54,3 +54,16 @@ func (e *Engine) callOrdinal(site ssa.Instruction) int {
 	}
 	return e.callOrdinals[site]
 }
+
+// dstCommon returns the CallCommon of a call/defer/go instruction.
+func dstCommon(site ssa.Instruction) *ssa.CallCommon {
+	switch x := site.(type) {
+	case *ssa.Call:
+		return x.Common()
+	case *ssa.Defer:
+		return x.Common()
+	case *ssa.Go:
+		return x.Common()
+	}
+	return nil
+}
